@@ -143,3 +143,32 @@ check("C07", "fault_enumeration",
       "and emit listeners likewise; aborting faults at every position of the ABORT family with timer re-arm verified by virtual time.",
       TRUST + " Faults are ordinary Exceptions.", "exhaustive fault-position enumeration against a fault-free twin run",
       "E4-fault-injector + E1-explicit-state + VLoop + E3-thread-scheduler", "DESIGN.md section 4 C07")
+
+ENGINES.append(dict(name="config-corpus-enumerator", path="/verif/mc/cfgtools.py", serves_properties=["C17", "C18", "C19"],
+                    kind_free_text="corpus of machine configs (one per construct) with complete enumeration of rewrite sites / JSON positions / templates, compared by an independent deep fingerprint and product-BFS trace equivalence on the real sync engine under the thread shim"))
+
+check("C17", "exploration",
+      "Every config of the CFG family (one corpus machine per construct, alternative guard/transition spellings, hostile and colliding "
+      "names carrying a canary, the Stately exports shipped with the test-suite) x 5 templates x async yes/no x 1/2 files is run through the "
+      "real CLI main() in-process; exit!=0 must leave the output directory empty; exit 0 must give files that parse, import without "
+      "audited side effects, never execute or parse config strings as code, build (pythonic) or bind (JSON templates) a machine equal to "
+      "create_machine(json) under an independent deep fingerprint and BFS traces under both guard valuations, regenerate byte-identically "
+      "and pass --check.",
+      TRUST + " The generated runner's demo main() is not executed; black is called in-process instead of as a subprocess. One recorded "
+      "known finding (JSON templates cannot bind names no function name maps to) is filtered by signature.",
+      "exhaustive enumeration of config family x template x mode through the real CLI, differential oracle (deep fingerprint + BFS trace equivalence)",
+      "config-corpus-enumerator + E3-thread-scheduler", "DESIGN.md section 4 C17")
+check("C18", "model_checking",
+      "Every applicable rewrite site of every spelling rule on every corpus machine and every target respelling on the TREE universal "
+      "machines (singly, in pairs in the thorough tier, all at once) must leave deep fingerprint and traces unchanged; every JSON position "
+      "of every corpus config x every wrong-typed value is driven through create_machine/start/events/can() and may only raise "
+      "XStateMachineError subclasses or behave like the original.",
+      TRUST, "complete enumeration of rewrite sites and single-point type corruptions, deep fingerprint + BFS trace equivalence oracle",
+      "config-corpus-enumerator + E3-thread-scheduler", "DESIGN.md section 4 C18")
+check("C19", "model_checking",
+      "Every corpus machine reduced to what the Python APIs express x style {functional, builder, class} x variant is compared (deep "
+      "fingerprint + traces) with create_machine(config); second builds from one definition after running the first to closure and after "
+      "mutating every dict handed to State; the complete discovery alphabet of name shapes x role x provider kind x spelling is bound through "
+      "create_machine and the callable actually invoked is identified.",
+      TRUST, "complete enumeration of API style x variant x corpus and of the discovery name alphabet, differential oracle",
+      "config-corpus-enumerator + E3-thread-scheduler", "DESIGN.md section 4 C19")
